@@ -29,19 +29,32 @@ class TLCResult(object):
         self.coverage = {}
 
     def printed(self, tag=None):
-        """Lines printed by PrintT, optionally only tuples whose first element is "tag"."""
+        """Values printed by PrintT (tuples), optionally only those whose first element is "tag".
+        TLC pretty-prints long values over several lines: collect until brackets balance."""
         from . import tlaval
+        import re
         res = []
+        buf = None
+        depth = 0
         for line in self.out.splitlines():
-            line = line.strip()
-            if not line.startswith('<<'):
-                continue
-            if tag is not None and not line.startswith('<<"%s"' % tag):
-                continue
-            try:
-                res.append(tlaval.parse(line))
-            except ValueError:
-                pass
+            st = line.strip()
+            if buf is None:
+                if not st.startswith('<<'):
+                    continue
+                buf = []
+                depth = 0
+            buf.append(st)
+            depth += st.count('<<') + st.count('[') + st.count('{') + st.count('(')
+            depth -= st.count('>>') + st.count(']') + st.count('}') + st.count(')')
+            if depth <= 0:
+                txt = ' '.join(buf)
+                buf = None
+                if tag is not None and not re.match(r'<<\s*"%s"' % re.escape(tag), txt):
+                    continue
+                try:
+                    res.append(tlaval.parse(txt))
+                except ValueError:
+                    pass
         return res
 
 
